@@ -123,55 +123,28 @@ Proof.
   repeat step_i64 sc. cbn [res_bind]. destruct b; reflexivity.
 Qed.
 
-(** * limits.rs: lookups through [descendants()] *)
-Definition dffind (p : xnode -> bool) (ch : list xnode) : option xnode :=
-  find p (flat_map descendants (flat_map (fun c => [c; nl]) ch)).
-
-Lemma dffind_app p a b : dffind p (a ++ b) = match dffind p a with Some x => Some x | None => dffind p b end.
-Proof. unfold dffind. rewrite !flat_map_app. apply find_app. Qed.
-
-Lemma dffind_limit nm n o :
-  dffind (has_tag_name nm) (opt1 (t_limit sc n) o) = ofind (has_tag_name nm) (t_limit sc n) o.
-Proof.
-  unfold dffind. destruct o as [v|]; [|reflexivity].
-  destruct v; cbn [opt1 flat_map app ofind]; unfold t_limit, el; rewrite !descendants_elem;
-    cbn [flat_map app descendants nl find has_tag_name];
-    match goal with |- context[if ?c then _ else _] => destruct c end; reflexivity.
-Qed.
-
-Lemma find_desc_struct nm name ch :
-  find_desc nm (t_struct sc name ch) =
-  if xstr_eqb name nm then Some (t_struct sc name ch) else dffind (has_tag_name nm) ch.
-Proof.
-  unfold find_desc, t_struct, el. rewrite descendants_elem. cbn [find has_tag_name xn_local ename].
-  destruct (xstr_eqb name nm); reflexivity.
-Qed.
-
+(** * limits.rs *)
 Lemma extract_limit_of n nm nm' o :
-  find_desc nm n = option_map (t_limit sc nm') o -> ofo (lv_fo pf64 pf32) o = true -> ofo lv_ok o = true ->
+  find_child nm n = option_map (t_limit sc nm') o -> ofo (lv_fo pf64 pf32) o = true -> ofo lv_ok o = true ->
   extract_limit pf64 pf32 n nm = Ok o.
 Proof.
   intros E Hf Hk. unfold extract_limit, opt_bind. rewrite E. destruct o as [v|]; [|reflexivity].
   cbn [option_map opt_case ofo] in *.
-  destruct v as [f|f|z|z]; cbn [t_limit lv_fo lv_ok] in *.
+  destruct v as [f|f|z|z]; cbn [t_limit lv_fo lv_ok] in *; rewrite opt_text_leaf.
   - eval_attrs. cbn [invalid_err res_bind]. eval_ifs. eval_attrs. eval_ifs.
-    change (opt_text ZERO_TEXT _) with (f32_text f). rewrite (f32_parsed_ok pf32 f Hf). reflexivity.
+    rewrite (f32_parsed_ok pf32 f Hf). reflexivity.
   - eval_attrs. cbn [invalid_err res_bind]. eval_ifs. eval_attrs. eval_ifs.
-    change (opt_text ZERO_TEXT _) with (f64_text f). rewrite (f64_parsed_ok pf64 f Hf). reflexivity.
+    rewrite (f64_parsed_ok pf64 f Hf). reflexivity.
   - eval_attrs. cbn [invalid_err res_bind]. eval_ifs.
-    change (opt_text ZERO_TEXT _) with (dec_z z). rewrite (parse_i64_dec_z z (in_i64_spec z Hk)). reflexivity.
+    rewrite (parse_i64_dec_z z (in_i64_spec z Hk)). reflexivity.
   - eval_attrs. cbn [invalid_err res_bind]. eval_ifs.
-    change (opt_text ZERO_TEXT _) with (dec_z z). rewrite (parse_i64_dec_z z (in_i64_spec z Hk)). reflexivity.
+    rewrite (parse_i64_dec_z z (in_i64_spec z Hk)). reflexivity.
 Qed.
 
-Ltac fd :=
-  rewrite find_desc_struct; eval_ifs; rewrite ?dffind_app, ?dffind_limit;
-  repeat first [rewrite ofind_no by fc_side | rewrite ofind_yes by fc_side];
-  cbv beta iota; rewrite ?opt_id; reflexivity.
 Ltac step_limit :=
   match goal with
   | |- context[extract_limit pf64 pf32 ?n ?nm] =>
-      let E := fresh "E" in eassert (E : find_desc nm n = _) by fd;
+      let E := fresh "E" in eassert (E : find_child nm n = _) by fc;
       rewrite (extract_limit_of _ _ _ _ E) by assumption; clear E
   end.
 
@@ -180,7 +153,7 @@ Lemma intensity_limits_of l :
   intensity_limits_from_node pf64 pf32 (t_intensity_limits sc l) = Ok l.
 Proof.
   intros Hf Hk. unfold il_fo in Hf. unfold il_ok in Hk. split_and.
-  unfold intensity_limits_from_node, t_intensity_limits. repeat step_limit.
+  unfold intensity_limits_from_node, t_intensity_limits, t_struct. repeat step_limit.
   cbn [res_bind]. destruct l; reflexivity.
 Qed.
 
@@ -189,7 +162,7 @@ Lemma color_limits_of l :
   color_limits_from_node pf64 pf32 (t_color_limits sc l) = Ok l.
 Proof.
   intros Hf Hk. unfold cl_fo in Hf. unfold cl_ok in Hk. split_and.
-  unfold color_limits_from_node, t_color_limits. repeat step_limit.
+  unfold color_limits_from_node, t_color_limits, t_struct. repeat step_limit.
   cbn [res_bind]. destruct l; reflexivity.
 Qed.
 
